@@ -37,14 +37,14 @@ CLAIMS = {
         text="For <=N conflicts with symbolic report lines/offsets and <=R nolint ranges with symbolic bounds, both grouping values and both exclude-test-files values, the solver shows that a "
              "conflict is reported (as a diagnostic or in exactly one 'other place(s)' list of a diagnostic with the same nil source) iff its (file, line) lies in no nolint range.",
         note="Partial: comment attachment (ast.NewCommentMap) and the comment-text recogniser are outside; toPos is stubbed under symx and real in the native replay. "
-             "Found and fixed (fix: commit in /repo): suppression was applied after grouping, so a suppressed group leader hid its unsuppressed members.",
+             "Found and fixed (fix: commit in /repo): suppression was applied after grouping, so a suppressed group leader hid its unsuppressed members. Source level (P13): a //nolint:nilaway comment on a dereference line of a C01-grammar program removes exactly the reports on that line (real comment map and NoLint analyzer), grouping off and on. " + PIPE_NOTE,
     ),
     "C13": dict(
         text="For <=N conflicts with symbolic offsets (every sort order) the solver-explored paths show that grouping partitions the ungrouped report: every location is a leader or appears in exactly one "
              "'other place(s)' list of a leader with the same nil source, the printed count equals the list length, and nothing new appears.",
         note="Grouping sentence: solver-decided over symbolic offsets. Pretty-printing sentence: the real PrettyPrintErrorMessage and regexp engine are executed from SSA on an enumerated family of message shapes "
              "(no symbolic scalars: regular-expression matching over symbolic strings is out of solver reach) and stripping colours and prefix must give back the plain message. "
-             "Found and fixed (fix: commit): quoted spans lost their quotes, so `m[\"k\"]` was shown as `m[k]` and grouped positions lost theirs.",
+             "Found and fixed (fix: commit): quoted spans lost their quotes, so `m[\"k\"]` was shown as `m[k]` and grouped positions lost theirs. Source level (P13): for every C01-grammar program the grouped report covers exactly the ungrouped locations (real messages parsed). " + PIPE_NOTE,
     ),
     "C06": dict(
         text="Within the bounds the solver shows: an importer fed the exported fact (through the codec) reaches the same conflict/no-conflict answer and the same verdicts on visible sites as the "
@@ -61,7 +61,7 @@ CLAIMS = {
         text="The solver shows for ALL flag values that an explicitly set annotation value is never changed by type defaults or later make* calls, that defaults never mark a site as annotated, "
              "that Range replays exactly the explicit flags with their values, and (engine, bounded) that a site annotated first keeps exactly the annotated verdict with the annotation as its "
              "explanation under every following constraint sequence, contradictions becoming conflicts.",
-        note="Partial: the doc-comment grammar (regexp) and the lookup of names in declarations are outside. Type-default predicates are symbolic Booleans under symx, real types natively.",
+        note="Partial: the doc-comment grammar (regexp) and the lookup of names in declarations are outside. Type-default predicates are symbolic Booleans under symx, real types natively. Source level (P10): programs of the C01 grammar with one nilable/nonnil doc annotation on the callee's parameter, its result or the package-level pointer, read by the real annotation parser; a nilable site is an arbitrary value, nil flowing into a nonnil site is an event: 'event possible => reported', 'no unchecked dereference and no nonnil annotation => clean'. " + PIPE_NOTE,
     ),
     "C04": dict(
         text="For every iteration order of the Go maps ranged over inside ObservedMap.Range/ObserveAnnotations and activateControlledTriggers, and for both arrival orders of two dependency facts in "
